@@ -66,6 +66,10 @@ def overlap_spec(batch, placement, bi):
             for n in leaves:
                 funcs.append({"name": n, "module": "main", "params": [], "body": []})
             body = [{"k": "keep", "path": p, "fn": n, "args": []} for p, n in zip(paths, leaves)]
+        elif placement == "same_fn":
+            # every path of the list keeps the same function with the same constant argument: one signature, several paths
+            funcs.append({"name": f"SF{li}", "module": "main", "params": [["x", None]], "body": []})
+            body = [{"k": "keep", "path": p, "fn": f"SF{li}", "args": [{"lit": "1"}]} for p in paths]
         elif placement == "nested":
             for i in range(len(paths) - 1, 0, -1):
                 inner = [{"k": "keep", "path": paths[i + 1], "fn": leaves[i + 1], "args": []}] if i + 1 < len(paths) else []
@@ -236,7 +240,7 @@ def plan(tier):
     items = []
     pls = path_lists(tier)
     B = 40
-    for placement in ("siblings", "nested", "helpers"):
+    for placement in ("siblings", "nested", "helpers", "same_fn"):
         for bi in range(0, len(pls), B):
             batch = pls[bi:bi + B]
             if placement == "nested":
